@@ -1768,6 +1768,7 @@ func TestProp(t *testing.T) {
 		r.Require(fmt.Sprintf("served_canonical_et%d", et), 10)
 	}
 	e.configuredAddressCases()
+	e.sessionCases()
 	r.Require("identity_checked", 500)
 	r.Require("refused_agreed", 5000)
 	for _, d := range defects {
